@@ -114,7 +114,7 @@ func check(c Case) evid.Outcome {
 }
 
 func gen(t *rapid.T) Case {
-	return Case{*hist.Gen(t, hist.Options{MaxOps: 16, BadMembers: rapid.IntRange(0, 3).Draw(t, "bad") == 0, ReadOnlyOps: true, ParseAfter: true, Clones: true, FileOps: true})}
+	return Case{*hist.Gen(t, hist.Options{MaxOps: 16, BadMembers: rapid.IntRange(0, 3).Draw(t, "bad") == 0, Unbalanced: rapid.IntRange(0, 3).Draw(t, "unbalanced") == 0, ReadOnlyOps: true, ParseAfter: true, Clones: true, FileOps: true})}
 }
 
 func TestPropFreeze(t *testing.T) { evid.RunProp(t, "freeze", 1, gen, check) }
